@@ -201,6 +201,8 @@ class Gen:
         r = self.r
         if max_items is None:
             max_items = r.choice([0, 1, 1, 2, 3, 5, 8])
+        if r.random() < 0.03:
+            return {'': self.value(depth)}
         out = {}
         for _ in range(max_items):
             out[self.key()] = self.value(depth)
